@@ -514,15 +514,24 @@ _reg("op_matmul", 2, lambda mg, a, p, kw: a[0] @ a[1], lambda a, p: np.matmul(a[
 _reg("matmul", 2, lambda mg, a, p, kw: mg.matmul(a[0], a[1], **kw), lambda a, p: np.matmul(a[0], a[1]))
 
 
+def _cond(p):
+    # the condition may be given as booleans or as integers (counts / 0-1 masks): nonzero selects x
+    c = np.array(p["cond"], dtype=bool).reshape(p["cshape"])
+    dt = p.get("cdtype", "bool")
+    if dt != "bool":
+        c = c.astype(dt) * p.get("cscale", 1)
+    return c
+
+
 def _mg_where(mg, a, p, kw):
-    return mg.where(np.array(p["cond"], dtype=bool).reshape(p["cshape"]), a[0], a[1], **kw)
+    return mg.where(_cond(p), a[0], a[1], **kw)
 
 
 _reg(
     "where",
     2,
     _mg_where,
-    lambda a, p: np.where(np.array(p["cond"], dtype=bool).reshape(p["cshape"]), a[0], a[1]),
+    lambda a, p: np.where(_cond(p), a[0], a[1]),
 )
 
 
@@ -758,7 +767,7 @@ _reg(
     "einsum",
     None,
     lambda mg, a, p, kw: mg.einsum(p["subs"], *a, optimize=p.get("optimize", False), **kw),
-    lambda a, p: np.asarray(np.einsum(p["subs"], *a)),
+    lambda a, p: np.asarray(np.einsum(p["subs"], *a, optimize=p.get("optimize", False))),  # (same memory layout as the call under test)
     nary=True,
     view=True,
 )
